@@ -92,7 +92,12 @@ def check_shapes(ctx, f, g, lp, pv):
     okp = len(ctor) == 1 and prv and len(ctor[0].args) >= 2 and norm.U(norm.subst(ctor[0].args[1], le)) == f"Priority({prv})"
     ctx.ob(5, "K6", "the pipeline's priority is the class that was drawn", bool(okp), f, ctor[0] if ctor else lp, construct="Pipeline(id, Priority(drawn value))", detail=f"{[norm.U(c) for c in ctor]}")
     # the query branch
-    qif = [n for n in lp.body if isinstance(n, ast.If) and prv and norm.nnf(n.test) == norm.mk_cmp("==", "Priority.QUERY.value", prv)]
+    # the raw value against QUERY's value, or the enum member made from it against QUERY itself (members are singletons with distinct values)
+    qforms = set()
+    if prv:
+        qforms = {norm.mk_cmp("==", "Priority.QUERY.value", prv), norm.mk_cmp("==", "Priority.QUERY", f"Priority({prv})"),
+                  ("cmp", "is", f"Priority({prv})", "Priority.QUERY"), ("cmp", "is", "Priority.QUERY", f"Priority({prv})")}
+    qif = [n for n in lp.body if isinstance(n, ast.If) and prv and (norm.nnf(n.test) in qforms or norm.nnf(norm.subst(n.test, le)) in qforms)]
     ctx.ob(2, "K2", "query pipelines are recognised by the drawn class being QUERY", len(qif) == 1, f, qif[0] if qif else lp, construct="if priority == Priority.QUERY.value", detail=f"{len(qif)}")
     if len(qif) != 1:
         return
